@@ -242,7 +242,8 @@ def trso_line2(
     :raises TypeError: if the new query's expression is not a population probability
     """
     new_query = deepcopy(query)
-    new_query.target_interventions.intersection_update(outcomes_ancestors)
+    # a new set: the caller may have passed one set object as target interventions and as a domain's experiments
+    new_query.target_interventions = query.target_interventions & outcomes_ancestors
 
     for domain, graph in query.graphs.items():
         outcome_ancestors_domain = graph.ancestors_inclusive(query.target_outcomes)
@@ -278,7 +279,8 @@ def trso_line3(query: TRSOQuery, additional_interventions: set[Variable]) -> TRS
     :returns: A TRSO query with modified attributes.
     """
     new_query = deepcopy(query)
-    new_query.target_interventions.update(additional_interventions)
+    # a new set: the caller may have passed one set object as target interventions and as a domain's experiments
+    new_query.target_interventions = query.target_interventions | additional_interventions
     return new_query
 
 
